@@ -209,6 +209,8 @@ pub mod raw {
             "vp_ris_ct_eq" => out.push(vp_ris_ct_eq(&rd::<EP>(a[0]), &rd::<EP>(a[1]))),
             "vp_ris_elligator" => wr(&vp_ris_elligator(&rd::<FE>(a[0])), out),
             "vp_ris_from_uniform_bytes" => wr(&vp_ris_from_uniform_bytes(&rd::<B64>(a[0])), out),
+            "g_mont_mul" => wr(&vp_g_mont_mul(&MontgomeryPoint(rd::<B32>(a[0])), &scalar_raw(rd::<B32>(a[1]))).0, out),
+            "g_mont_mul_clamped" => wr(&vp_g_mont_mul_clamped(&MontgomeryPoint(rd::<B32>(a[0])), &rd::<B32>(a[1])).0, out),
             "g_opt_pippenger" | "g_opt_pippenger_dispatch" | "g_opt_multiscalar" => {
                 // args: n*32 scalar bytes, n*32 compressed points, 8-byte little-endian None mask -> 1 byte (1 = Some) followed by the compressed result
                 use crate::edwards::CompressedEdwardsY as C;
@@ -374,6 +376,10 @@ pub fn point_tags(p: &crate::edwards::EdwardsPoint) -> (u64, u64) {
     #[cfg(curve25519_dalek_bits = "32")] { ((p.X.0[0] as u64) | ((p.X.0[1] as u64) << 32), (p.X.0[2] as u64) | ((p.X.0[3] as u64) << 32)) }
 }
 pub fn scalar_raw(bytes: [u8; 32]) -> crate::scalar::Scalar { crate::scalar::Scalar { bytes } }
+/// an all-zero value of a plain-data type of another crate (used by Kani stubs of constructors whose types have private fields;
+/// ed25519-dalek forbids unsafe code, so the helper lives here).  Only instantiated for types for which all-zero bytes are valid.
+#[cfg(kani)]
+pub fn zeroed_plain<T>() -> T { unsafe { core::mem::zeroed() } }
 
 // ------------------------------------------------------------------ Scalar-level glue (C02, layer F for scalars)
 #[no_mangle] #[inline(never)] pub fn vp_sc_add(a: &Scalar, b: &Scalar) -> Scalar { a + b }
